@@ -1,4 +1,468 @@
+//! C02 — conversions match the published colorimetric definitions.
+//! Every discovered conversion edge x every in-range lattice value is compared with an
+//! independent f64 reference model (CIE 15, the RGB standards, hexcone HSV/HSL/HWB, Ottosson's
+//! Ok spaces, HSLuv rev 4); the RGB matrices are compared with matrices derived from the
+//! primaries and the white point; the reference itself is validated in the same run against
+//! published data (HSLuv data set shipped in /repo, Ottosson's Oklab table, CIE 15 table).
+use pg::{Graph, Kind};
+use pv::fl::Fl;
+use pv::refmodel::{max_abs_diff, V3};
+use pv::{json, Collector, Ctx, Mode, Tier, Value};
+
+fn to64<T: Fl>(v: [T; 3]) -> V3 {
+    [v[0].to64(), v[1].to64(), v[2].to64()]
+}
+fn hex<T: Fl>(v: &[T]) -> Vec<String> {
+    v.iter().map(|x| format!("{:#x}", x.bits64())).collect()
+}
+fn bits3<T: Fl>(v: [T; 3]) -> [u64; 3] {
+    [v[0].bits64(), v[1].bits64(), v[2].bits64()]
+}
+
+/// tolerance on ‖ΔXYZ‖∞ between the implementation's result and the reference value.
+/// f64: the published constants have 7 significant digits (matrices, white points) and the
+/// hard-coded inverses are inverse to ≈ 5e-7; f32: a conversion is a few dozen operations with
+/// amplification ≤ 10. Both are ≥ 8× the largest deviation that rounding produces on the
+/// pinned tree and ≥ 10× below the effect of a wrong published constant (≥ 1e-3).
+fn tol<T: Fl>(ka: &Kind, kb: &Kind) -> f64 {
+    let okcyl = ka.is_ok_cyl() || kb.is_ok_cyl();
+    if T::NAME == "f32" {
+        if okcyl {
+            1.0e-3
+        } else {
+            1.0e-4
+        }
+    } else {
+        1.0e-5
+    }
+}
+
+fn values_for<T: Fl>(g: &Graph<T>, a: usize, dense: bool, grid: usize) -> Vec<[T; 3]> {
+    let kind = g.nodes[a].kind;
+    let mut vals: Vec<V3> = kind.lattice(dense);
+    let spec = match g.name {
+        "D50" => pv::refmodel::rgb::PROPHOTO,
+        "DCI" => pv::refmodel::rgb::DCI_P3,
+        _ => pv::refmodel::rgb::SRGB,
+    };
+    for xyz in pv::colorkind::srgb_grid_xyz(grid, &spec) {
+        if kind.can_represent(xyz, 0.0) {
+            let img = kind.from_xyz(xyz);
+            if img.iter().all(|x| x.is_finite()) {
+                vals.push(img);
+            }
+        }
+    }
+    let mut out: Vec<[T; 3]> = vals.into_iter().map(|v| [T::from64(v[0]), T::from64(v[1]), T::from64(v[2])]).collect();
+    out.sort_by_key(|v| bits3(*v));
+    out.dedup_by_key(|v| bits3(*v));
+    out
+}
+
+fn input_class(ka: &Kind, kb: &Kind, xyz_ref: V3) -> &'static str {
+    if ka.is_ok_cyl() || kb.is_ok_cyl() {
+        if pv::colorkind::on_ok_blue_cusp(xyz_ref) {
+            return "@ok-blue-cusp";
+        }
+        if pv::colorkind::oklab_hcl(xyz_ref).2 >= 0.95 {
+            return "@okcyl-near-white";
+        }
+    }
+    ""
+}
+
+fn check_edge_value<T: Fl>(g: &Graph<T>, a: usize, b: usize, v: [T; 3], c: &mut Collector, cnt: &mut [u64; 3]) {
+    let (ka, kb) = (g.nodes[a].kind, g.nodes[b].kind);
+    let Some(f) = g.unc[a][b] else { return };
+    let v64 = to64(v);
+    let xyz_ref = ka.to_xyz(v64);
+    if !pv::colorkind::plausible(xyz_ref) || !(ka.can_represent(xyz_ref, 1e-7) || ka.is_luma()) {
+        return;
+    }
+    if !(kb.can_represent(xyz_ref, 1e-7) || kb.is_luma()) {
+        return;
+    }
+    cnt[0] += 1;
+    cnt[1] += 1;
+    let sig = |cls: &str| format!("C02/edge-vs-reference/{}/{}/{}->{}/{}", g.name, T::NAME, g.nodes[a].name, g.nodes[b].name, cls);
+    let mk = |obs: Value, exp: Value| json!({"sub": "edge", "group": g.name, "float": T::NAME, "path": [g.nodes[a].name, g.nodes[b].name], "input": hex(&v), "value": v64, "observed": obs, "expected": exp});
+    match pv::catch(|| f(v)) {
+        Err(msg) => c.violation(&sig("panic"), 1.0, || mk(json!({"panic": msg}), json!("no panic"))),
+        Ok(r) => {
+            let r64 = to64(r);
+            // expected: the colour itself, in XYZ; for a luma target only Y is defined
+            let t = tol::<T>(&ka, &kb);
+            let e = if kb.is_luma() {
+                (kb.to_xyz(r64)[1] - xyz_ref[1]).abs()
+            } else {
+                // either published Oklab definition (M1 route or the direct sRGB matrices), on each side
+                let xa = [xyz_ref, ka.to_xyz_alt(v64)];
+                let xb = [kb.to_xyz(r64), kb.to_xyz_alt(r64)];
+                let mut best = f64::NAN;
+                for p in xa {
+                    for q in xb {
+                        let d = max_abs_diff(p, q);
+                        if !(d >= best) {
+                            best = d;
+                        }
+                    }
+                }
+                best
+            };
+            cnt[2] += 1;
+            if e <= t {
+                c.ratio("edge-vs-reference", e / t, || mk(json!({"result": r64, "err": e}), json!(kb.from_xyz(xyz_ref))));
+            } else {
+                let cls = format!("{}{}", if e.is_nan() { "NaN" } else if e.is_infinite() { "inf" } else { "finite-off" }, input_class(&ka, &kb, xyz_ref));
+                c.violation(&sig(&cls), e, || mk(json!({"result": r64, "dxyz": pv::report::fnum(e)}), json!({"reference": kb.from_xyz(xyz_ref), "tol": t})));
+            }
+            c.outcome(pv::fnv(format!("{:?}", bits3(r)).as_bytes()));
+        }
+    }
+}
+
+fn run_graph<T: Fl>(ctx: &Ctx, g: &Graph<T>, dense: bool, grid: usize, total: &mut Collector) {
+    let sub = format!("edges/{}/{}", g.name, T::NAME);
+    if !ctx.wants(&sub) {
+        return;
+    }
+    let n = g.n();
+    let vals: Vec<Vec<[T; 3]>> = (0..n).map(|a| values_for(g, a, dense, grid)).collect();
+    let mut items = vec![];
+    for a in 0..n {
+        let per = 256;
+        let mut i = 0;
+        while i < vals[a].len() {
+            items.push((a, i, (i + per).min(vals[a].len())));
+            i += per;
+        }
+    }
+    let (items_ref, vals_ref) = (&items, &vals);
+    let cc = pv::par::run_chunks(items.len(), |ci, c| {
+        let (a, lo, hi) = items_ref[ci];
+        let mut cnt = [0u64; 3];
+        let mut states = 0;
+        for i in lo..hi {
+            let v = vals_ref[a][i];
+            states += 1;
+            for b in 0..n {
+                if b != a {
+                    check_edge_value(g, a, b, v, c, &mut cnt);
+                }
+            }
+            c.sample(pv::splitmix((ci as u64) << 20 | i as u64), || json!({"group": g.name, "float": T::NAME, "node": g.nodes[a].name, "value": to64(v)}));
+        }
+        c.add(&sub, states, cnt[1], cnt[2], states);
+    });
+    total.merge(cc);
+    total.exhaustive(&sub, true, &format!("{} nodes, {} discovered edges x every {} lattice value ∪ {}^3 RGB-grid images of the source node", n, g.edge_count(), if dense { "dense" } else { "coarse" }, grid));
+}
+
+// ---------------------------------------------------------------------------------------
+// matrices: palette's hard-coded and derived RGB<->XYZ matrices vs primaries + white point
+
+fn check_matrices(ctx: &Ctx, c: &mut Collector) {
+    use palette::encoding;
+    use palette::rgb::{Primaries, RgbSpace, RgbStandard};
+    use palette::white_point::WhitePoint;
+    use pv::refmodel::rgb as R;
+    let sub = "matrices";
+    if !ctx.wants(sub) {
+        return;
+    }
+    let mut n = 0u64;
+    macro_rules! space {
+        ($name:literal, $sp:ty, $spec:expr) => {{
+            let spec: R::RgbSpec = $spec;
+            let want = spec.rgb_to_xyz();
+            let want_inv = spec.xyz_to_rgb();
+            // published primaries and white point
+            let pr: [palette::Yxy<palette::white_point::Any, f64>; 3] = [
+                <<$sp as RgbSpace>::Primaries as Primaries<f64>>::red(),
+                <<$sp as RgbSpace>::Primaries as Primaries<f64>>::green(),
+                <<$sp as RgbSpace>::Primaries as Primaries<f64>>::blue(),
+            ];
+            for i in 0..3 {
+                n += 1;
+                let d = (pr[i].x - spec.prim[i][0]).abs().max((pr[i].y - spec.prim[i][1]).abs());
+                if !(d <= 1e-9) {
+                    c.violation(&format!("C02/primaries/{}", $name), d, || json!({"sub": "matrices", "space": $name, "input": i, "observed": [pr[i].x, pr[i].y], "expected": spec.prim[i]}));
+                }
+                // the Y of each primary is the middle row of the matrix
+                // (the standards tabulate these luminances with 4-6 digits: Adobe RGB 0.6273)
+                let dy = (pr[i].luma - want[1][i]).abs();
+                if !(dy <= 1e-4) {
+                    c.violation(&format!("C02/primaries-luma/{}", $name), dy, || json!({"sub": "matrices", "space": $name, "input": i, "observed": pr[i].luma, "expected": want[1][i]}));
+                }
+            }
+            let w = <<$sp as RgbSpace>::WhitePoint as WhitePoint<f64>>::get_xyz();
+            let ww = spec.wp.xyz();
+            let dw = (w.x - ww[0]).abs().max((w.y - ww[1]).abs()).max((w.z - ww[2]).abs());
+            n += 1;
+            if !(dw <= 1e-9) {
+                c.violation(&format!("C02/white-point/{}", $name), dw, || json!({"sub": "matrices", "space": $name, "input": "white", "observed": [w.x, w.y, w.z], "expected": ww}));
+            }
+            // hard-coded matrices (7 digits)
+            if let Some(m) = <$sp as RgbSpace>::rgb_to_xyz_matrix() {
+                for i in 0..9 {
+                    n += 1;
+                    let d = (m[i] - want[i / 3][i % 3]).abs();
+                    c.ratio(sub, d / 6e-7, || json!({"space": $name, "entry": i, "observed": m[i], "expected": want[i / 3][i % 3]}));
+                    if !(d <= 6e-7) {
+                        c.violation(&format!("C02/rgb_to_xyz_matrix/{}", $name), d, || json!({"sub": "matrices", "space": $name, "input": i, "observed": m[i], "expected": want[i / 3][i % 3]}));
+                    }
+                }
+            }
+            if let Some(m) = <$sp as RgbSpace>::xyz_to_rgb_matrix() {
+                for i in 0..9 {
+                    n += 1;
+                    let d = (m[i] - want_inv[i / 3][i % 3]).abs();
+                    // the inverse has entries up to 3.2 and condition number ≈ 10
+                    c.ratio(sub, d / 3e-6, || json!({"space": $name, "inv_entry": i, "observed": m[i], "expected": want_inv[i / 3][i % 3]}));
+                    if !(d <= 3e-6) {
+                        c.violation(&format!("C02/xyz_to_rgb_matrix/{}", $name), d, || json!({"sub": "matrices", "space": $name, "input": i, "observed": m[i], "expected": want_inv[i / 3][i % 3]}));
+                    }
+                }
+            }
+            // the general derivation in matrix.rs
+            let m: [f64; 9] = palette::matrix::rgb_to_xyz_matrix::<$sp, f64>();
+            for i in 0..9 {
+                n += 1;
+                let d = (m[i] - want[i / 3][i % 3]).abs();
+                if !(d <= 1e-9) {
+                    c.violation(&format!("C02/derived-matrix/{}", $name), d, || json!({"sub": "matrices", "space": $name, "input": i, "observed": m[i], "expected": want[i / 3][i % 3]}));
+                }
+            }
+        }};
+    }
+    space!("Srgb", encoding::Srgb, R::SRGB);
+    space!("AdobeRgb", encoding::AdobeRgb, R::ADOBE);
+    space!("Rec2020", encoding::Rec2020, R::REC2020);
+    space!("DisplayP3", encoding::DisplayP3, R::DISPLAY_P3);
+    space!("DciP3", encoding::DciP3, R::DCI_P3);
+    space!("DciP3Plus", encoding::DciP3Plus<encoding::P3Gamma>, R::DCI_P3_PLUS);
+    space!("ProPhotoRgb", encoding::ProPhotoRgb, R::PROPHOTO);
+    let _ = <encoding::Rec709 as RgbStandard>::Space::rgb_to_xyz_matrix();
+    c.add(sub, n, n, n, n);
+    c.exhaustive(sub, true, "7 RGB spaces: primaries, white point, hard-coded rgb->xyz and xyz->rgb matrices (all 9 entries each), matrix derived by palette from the primaries");
+}
+
+// ---------------------------------------------------------------------------------------
+// published data: validates the reference (machinery failure if it disagrees) and palette
+
+fn repo_root() -> String {
+    std::env::var("VERIF_REPO").unwrap_or_else(|_| "/repo".to_string())
+}
+
+fn machinery_fail(msg: String) -> ! {
+    eprintln!("MACHINERY-FAILURE: reference model disagrees with published data: {msg}");
+    std::process::exit(3)
+}
+
+fn check_published(ctx: &Ctx, c: &mut Collector) {
+    use palette::convert::FromColorUnclamped;
+    use palette::white_point::D65;
+    use palette::{Hsluv, Lchuv, Luv, Oklab, Xyz};
+    use pv::refmodel::{cie, hsluv, ok};
+    let sub = "published-data";
+    if !ctx.wants(sub) {
+        return;
+    }
+    let mut n = 0u64;
+    // (1) Ottosson's Oklab table (https://bottosson.github.io/posts/oklab/, 3 decimals)
+    let table: [([f64; 3], [f64; 3]); 4] = [
+        ([0.950, 1.000, 1.089], [1.000, 0.000, 0.000]),
+        ([1.000, 0.000, 0.000], [0.450, 1.236, -0.019]),
+        ([0.000, 1.000, 0.000], [0.922, -0.671, 0.263]),
+        ([0.000, 0.000, 1.000], [0.153, -1.415, -0.449]),
+    ];
+    for (xyz, lab) in table {
+        for m1 in [&ok::M1_ORIG, &ok::M1_CSS] {
+            let r = ok::xyz_to_oklab_with(m1, xyz);
+            if max_abs_diff(r, lab) > 6e-4 {
+                machinery_fail(format!("Oklab reference {xyz:?} -> {r:?}, published {lab:?}"));
+            }
+        }
+        let p: Oklab<f64> = Oklab::from_color_unclamped(Xyz::<D65, f64>::new(xyz[0], xyz[1], xyz[2]));
+        let d = max_abs_diff([p.l, p.a, p.b], lab);
+        n += 1;
+        if !(d <= 6e-4) {
+            c.violation("C02/published/oklab-table", d, || json!({"sub": "published", "input": xyz, "observed": [p.l, p.a, p.b], "expected": lab}));
+        }
+    }
+    // (2) HSLuv reference data set shipped in /repo (4096 rows): LCh(uv) <-> HSLuv and Luv <-> LCh(uv)
+    let path = format!("{}/integration_tests/tests/hsluv_dataset/hsluv_dataset.json", repo_root());
+    let txt = std::fs::read_to_string(&path).unwrap_or_else(|e| machinery_fail(format!("cannot read {path}: {e}")));
+    let data: Value = pv::serde_json_from_str(&txt).unwrap_or_else(|e| machinery_fail(format!("bad json {path}: {e}")));
+    let mut rows = 0;
+    for (hexname, row) in data.as_object().expect("object") {
+        let get = |k: &str| -> V3 {
+            let a = row[k].as_array().expect("array");
+            [a[0].as_f64().unwrap(), a[1].as_f64().unwrap(), a[2].as_f64().unwrap()]
+        };
+        let (lch, luv, hs) = (get("lch"), get("luv"), get("hsluv"));
+        rows += 1;
+        // reference validation (HSLuv rev 4 is deterministic: agreement to 1e-8 relative)
+        let r_hs = hsluv::lch_to_hsluv(lch);
+        let r_lch = hsluv::hsluv_to_lch(hs);
+        let hd = pv::refmodel::hue_dist(r_hs[0], hs[0]);
+        if (lch[0] > 1e-6 && lch[0] < 99.999) && (hd > 1e-6 || (r_hs[1] - hs[1]).abs() > 1e-6 || (r_hs[2] - hs[2]).abs() > 1e-6 || (r_lch[1] - lch[1]).abs() > 1e-6) {
+            machinery_fail(format!("HSLuv reference, row {hexname}: lch {lch:?} -> {r_hs:?}, data {hs:?}; back {r_lch:?}"));
+        }
+        let rp = cie::to_polar(luv);
+        if (rp[1] - lch[1]).abs() > 1e-6 || (lch[1] > 1e-6 && pv::refmodel::hue_dist(rp[2], lch[2]) > 1e-6) {
+            machinery_fail(format!("polar reference, row {hexname}: luv {luv:?} -> {rp:?}, data {lch:?}"));
+        }
+        // palette
+        let p_hs: Hsluv<D65, f64> = Hsluv::from_color_unclamped(Lchuv::<D65, f64>::new(lch[0], lch[1], lch[2]));
+        let p_lch: Lchuv<D65, f64> = Lchuv::from_color_unclamped(Hsluv::<D65, f64>::new(hs[0], hs[1], hs[2]));
+        let p_pol: Lchuv<D65, f64> = Lchuv::from_color_unclamped(Luv::<D65, f64>::new(luv[0], luv[1], luv[2]));
+        n += 3;
+        let degenerate = !(lch[0] > 1e-6 && lch[0] < 99.999);
+        if !degenerate {
+            let d = (p_hs.saturation - hs[1]).abs().max((p_hs.l - hs[2]).abs()).max(if lch[1] > 1e-6 { pv::refmodel::hue_dist(p_hs.hue.into_positive_degrees(), hs[0]) } else { 0.0 });
+            c.ratio(sub, d / 1e-6, || json!({"row": hexname, "hsluv": [p_hs.hue.into_positive_degrees(), p_hs.saturation, p_hs.l]}));
+            if !(d <= 1e-6) {
+                c.violation("C02/published/hsluv-dataset/Lchuv->Hsluv", d, || json!({"sub": "published", "input": lch, "row": hexname, "observed": [p_hs.hue.into_positive_degrees(), p_hs.saturation, p_hs.l], "expected": hs}));
+            }
+            let d = (p_lch.chroma - lch[1]).abs().max((p_lch.l - lch[0]).abs());
+            if !(d <= 1e-6) {
+                c.violation("C02/published/hsluv-dataset/Hsluv->Lchuv", d, || json!({"sub": "published", "input": hs, "row": hexname, "observed": [p_lch.l, p_lch.chroma, p_lch.hue.into_positive_degrees()], "expected": lch}));
+            }
+        }
+        let d = (p_pol.chroma - lch[1]).abs().max(if lch[1] > 1e-6 { pv::refmodel::hue_dist(p_pol.hue.into_positive_degrees(), lch[2]) } else { 0.0 });
+        if !(d <= 1e-6) {
+            c.violation("C02/published/hsluv-dataset/Luv->Lchuv", d, || json!({"sub": "published", "input": luv, "row": hexname, "observed": [p_pol.l, p_pol.chroma, p_pol.hue.into_positive_degrees()], "expected": lch}));
+        }
+    }
+    if rows != 4096 {
+        machinery_fail(format!("expected 4096 HSLuv rows, found {rows}"));
+    }
+    // (3) CIE 15:2004 table shipped in /repo: XYZ -> xy and u'v' of the illuminants (5 digits)
+    let path = format!("{}/integration_tests/tests/convert/data_cie_15_2004.csv", repo_root());
+    let txt = std::fs::read_to_string(&path).unwrap_or_else(|e| machinery_fail(format!("cannot read {path}: {e}")));
+    for line in txt.lines().skip(1) {
+        let f: Vec<f64> = line.split(',').filter_map(|x| x.trim().parse().ok()).collect();
+        if f.len() < 8 {
+            continue;
+        }
+        let xyz = [f[0], f[1], f[2]];
+        let r = cie::xyz_to_yxy(xyz, cie::Wp::E);
+        if (r[0] - f[3]).abs() > 2e-5 || (r[1] - f[4]).abs() > 2e-5 {
+            machinery_fail(format!("xyY reference {xyz:?} -> {r:?}, CIE 15 {:?}", &f[3..5]));
+        }
+        let p: palette::Yxy<palette::white_point::E, f64> = palette::Yxy::from_color_unclamped(Xyz::<palette::white_point::E, f64>::new(xyz[0], xyz[1], xyz[2]));
+        n += 1;
+        let d = (p.x - f[3]).abs().max((p.y - f[4]).abs()).max((p.luma - f[5]).abs());
+        if !(d <= 2e-5) {
+            c.violation("C02/published/cie15/Xyz->Yxy", d, || json!({"sub": "published", "input": xyz, "observed": [p.x, p.y, p.luma], "expected": &f[3..6]}));
+        }
+    }
+    c.add(sub, n, n, n, n);
+    c.exhaustive(sub, true, "Ottosson's 4 Oklab pairs, all 4096 rows of the HSLuv data set (LCh(uv)<->HSLuv, Luv->LCh(uv)), the CIE 15:2004 illuminant table; the reference model must agree with the same data or the run is a machinery failure");
+}
+
+macro_rules! with_graph {
+    ($group:expr, $float:expr, |$g:ident| $body:expr) => {
+        match ($group, $float) {
+            ("D65-core", "f32") => { let $g = pga::d65_f32(); $body }
+            ("D65-core", "f64") => { let $g = pgb::d65_f64(); $body }
+            ("D65-cylindrical", "f32") => { let $g = pgc::d65cyl_f32(); $body }
+            ("D65-cylindrical", "f64") => { let $g = pgc::d65cyl_f64(); $body }
+            ("D50", "f32") => { let $g = pgd::d50_f32(); $body }
+            ("D50", "f64") => { let $g = pgd::d50_f64(); $body }
+            ("DCI", "f32") => { let $g = pgd::dci_f32(); $body }
+            ("DCI", "f64") => { let $g = pgd::dci_f64(); $body }
+            ("A", "f32") => { let $g = pgd::a_f32(); $body }
+            ("A", "f64") => { let $g = pgd::a_f64(); $body }
+            ("E", "f32") => { let $g = pgd::e_f32(); $body }
+            ("E", "f64") => { let $g = pgd::e_f64(); $body }
+            ("D55", "f64") => { let $g = pgd::d55_f64(); $body }
+            ("D75", "f64") => { let $g = pgd::d75_f64(); $body }
+            ("C", "f64") => { let $g = pgd::c_f64(); $body }
+            ("B", "f64") => { let $g = pgd::b_f64(); $body }
+            ("F2", "f64") => { let $g = pgd::f2_f64(); $body }
+            ("F7", "f64") => { let $g = pgd::f7_f64(); $body }
+            ("F11", "f64") => { let $g = pgd::f11_f64(); $body }
+            (g, f) => { eprintln!("unknown graph {g}/{f}"); std::process::exit(3) }
+        }
+    };
+}
+
+fn replay(c: &mut Collector, rep: &Value) {
+    let case = &rep["case"];
+    match case["sub"].as_str().unwrap_or("") {
+        "edge" => {
+            let group = case["group"].as_str().unwrap_or("").to_string();
+            let float = case["float"].as_str().unwrap_or("").to_string();
+            let path: Vec<String> = case["path"].as_array().map(|a| a.iter().map(|x| x.as_str().unwrap_or("").to_string()).collect()).unwrap_or_default();
+            let bits: Vec<u64> = case["input"].as_array().map(|a| a.iter().map(|x| u64::from_str_radix(x.as_str().unwrap_or("0").trim_start_matches("0x"), 16).unwrap_or(0)).collect()).unwrap_or_default();
+            fn go<T: Fl>(g: &Graph<T>, path: &[String], bits: &[u64], c: &mut Collector) {
+                let a = g.index(&path[0]).expect("node");
+                let b = g.index(&path[1]).expect("node");
+                let v = [T::from_bits64(bits[0]), T::from_bits64(bits[1]), T::from_bits64(bits[2])];
+                let mut cnt = [0u64; 3];
+                check_edge_value(g, a, b, v, c, &mut cnt);
+                if let Some(f) = g.unc[a][b] {
+                    println!("{} {:?} -> {} {:?}", path[0], to64(v), path[1], pv::catch(|| to64(f(v))));
+                }
+            }
+            with_graph!(group.as_str(), float.as_str(), |g| go(&g, &path, &bits, c));
+        }
+        "matrices" => {
+            let ctx = Ctx::from_args("C02").0;
+            check_matrices(&ctx, c);
+        }
+        _ => {
+            let ctx = Ctx::from_args("C02").0;
+            check_published(&ctx, c);
+        }
+    }
+}
+
 fn main() {
-    eprintln!("C02: check not built yet");
-    std::process::exit(3);
+    pv::main_guard(real_main)
+}
+
+fn real_main() -> i32 {
+    let (ctx, mode) = Ctx::from_args("C02");
+    if let Mode::Replay(rep) = mode {
+        let mut c = Collector::new();
+        replay(&mut c, &rep);
+        return ctx.finish_replay(c);
+    }
+    let mut total = Collector::new();
+    check_published(&ctx, &mut total);
+    check_matrices(&ctx, &mut total);
+    let quick = ctx.tier == Tier::Quick;
+    let (dense, grid) = if quick { (true, 9) } else { (true, 17) };
+    run_graph(&ctx, &pga::d65_f32(), dense, grid, &mut total);
+    run_graph(&ctx, &pgb::d65_f64(), dense, grid, &mut total);
+    run_graph(&ctx, &pgc::d65cyl_f32(), dense, grid, &mut total);
+    run_graph(&ctx, &pgc::d65cyl_f64(), dense, grid, &mut total);
+    run_graph(&ctx, &pgd::d50_f32(), dense, grid, &mut total);
+    run_graph(&ctx, &pgd::d50_f64(), dense, grid, &mut total);
+    run_graph(&ctx, &pgd::dci_f32(), dense, grid, &mut total);
+    run_graph(&ctx, &pgd::dci_f64(), dense, grid, &mut total);
+    run_graph(&ctx, &pgd::a_f32(), dense, grid, &mut total);
+    run_graph(&ctx, &pgd::a_f64(), dense, grid, &mut total);
+    run_graph(&ctx, &pgd::e_f32(), dense, grid, &mut total);
+    run_graph(&ctx, &pgd::e_f64(), dense, grid, &mut total);
+    run_graph(&ctx, &pgd::d55_f64(), dense, grid, &mut total);
+    run_graph(&ctx, &pgd::d75_f64(), dense, grid, &mut total);
+    run_graph(&ctx, &pgd::c_f64(), dense, grid, &mut total);
+    run_graph(&ctx, &pgd::b_f64(), dense, grid, &mut total);
+    run_graph(&ctx, &pgd::f2_f64(), dense, grid, &mut total);
+    run_graph(&ctx, &pgd::f7_f64(), dense, grid, &mut total);
+    run_graph(&ctx, &pgd::f11_f64(), dense, grid, &mut total);
+    ctx.finish(
+        total,
+        "model_checking",
+        "states = (source node type, in-range lattice value or RGB-grid image) per configuration (white point x float type); transitions = conversion edges executed; traces = reference-model predictions compared with the edge's result; plus matrix entries and published data rows; every state is non-trivial",
+        &[
+            "the f64 reference models (pv::refmodel) are transcriptions of the published definitions, validated in every run against Ottosson's Oklab table, the HSLuv data set and the CIE 15 table",
+            "agreement is measured in linear-light XYZ (white = 1); for Oklab either published matrix set (M1 route or the direct sRGB matrices) is accepted",
+            "a target only participates for colours it can represent (inside its RGB gamut for gamut-bounded types)",
+        ],
+    )
 }
